@@ -537,3 +537,18 @@ Fixpoint unescape_cp (s : list N) : list N :=
         end
       else c :: unescape_cp r
   end.
+
+(* ------------------------------------------------------------------------------------------ *)
+(* read_field_type (duke/src/tree/descriptor.rs): the only arithmetic of the descriptor parsers.
+   `array_dimension` is an u8, incremented once per `[` (`array_dimension += 1`, a Panic past 255
+   under overflow checks); the check `array_dimension == 255` in front of the increment makes the
+   256th bracket an error.  [guarded] = the code as it is; [false] = without the check.           *)
+Fixpoint array_dims (guarded : bool) (s : str) (dim : N) : out (N * str) :=
+  match s with
+  | c :: r =>
+      if c =? 91 then
+        if guarded && (dim =? 255) then Fail
+        else let! d := u8_bump false dim 1 in array_dims guarded r d
+      else Done (dim, s)
+  | [] => Done (dim, [])
+  end.
